@@ -3,6 +3,7 @@
 Case kinds (JSON):
   {"k":"text","mode":"str","s":[cp..],"cols":C}                 queries on the str
   {"k":"text","mode":"bytes","enc":E,"s":[cp..],"cols":C}       queries on s.encode(E,"replace")
+  {"k":"text","mode":"db","enc":E,"chars":[[b]|[lead,trail]..]} queries on a well-formed double-byte text given as characters
   {"k":"text","mode":"raw","enc":E,"b":[byte..],"cols":C}       queries on arbitrary bytes (no boundaries known)
   {"k":"widths","lo":a,"hi":b}                                  get_char_width of every code point in [a,b)
   {"k":"ate","enc":E,"s":[cp..]} / {"k":"ate","enc":E,"b":[..]}  apply_target_encoding
@@ -54,6 +55,11 @@ def text_of(case):
         for p in parts:
             offs.append(offs[-1] + len(p))
         return b, offs, MODES[case["enc"]]
+    if case["mode"] == "db":
+        offs = [0]
+        for c in case["chars"]:
+            offs.append(offs[-1] + len(c))
+        return bytes(x for c in case["chars"] for x in c), offs, MODES[case["enc"]]
     b = bytes(case["b"])
     return b, [0, len(b)], MODES[case["enc"]]
 
@@ -219,7 +225,8 @@ class C11(core.Check):
         "calc_trim_text: start_col < end_col <= width of the line",
         "the UnicodeWarning of calc_width's fallback is not modelled (its value is)",
         "on invalid UTF-8 only totality is demanded (in-range width queries never raise); which '?' replacement widths result is correspondence-only",
-        "wide (double-byte) mode counts one column per byte: characters whose euc-jp encoding has 3 bytes are outside the oracle",
+        "wide (double-byte) mode counts one column per byte: characters whose euc-jp encoding has 3 bytes are outside the oracle; "
+        "double-byte texts are also generated byte by byte (single < 0x80; lead 0x81-0xFE, trail 0x40-0x7E or 0x80-0xFE) to reach every range boundary",
     ]
 
     # ------------------------------------------------------------------ implementation
@@ -417,6 +424,15 @@ class C11(core.Check):
         """reference width of every character of a text case, or None when the case is outside the property"""
         if case["mode"] == "str":
             return [self.ref_width(chr(c)) for c in case["s"]]
+        if case["mode"] == "db":
+            # a double-byte text as the encodings define it: single bytes < 0x80; lead 0x81..0xFE, trail 0x40..0x7E / 0x80..0xFE
+            if MODES[case["enc"]] != 2:
+                return None
+            for c in case["chars"]:
+                if not ((len(c) == 1 and 0 <= c[0] < 0x80) or
+                        (len(c) == 2 and 0x81 <= c[0] <= 0xFE and (0x40 <= c[1] <= 0x7E or 0x80 <= c[1] <= 0xFE))):
+                    return None
+            return [len(c) for c in case["chars"]]
         if case["mode"] != "bytes":
             return None
         mode = MODES[case["enc"]]
@@ -663,7 +679,7 @@ class C11(core.Check):
     def nontrivial(self, case, res):
         k = case["k"]
         if k == "text":
-            return bool(case.get("s") or case.get("b"))
+            return bool(case.get("s") or case.get("b") or case.get("chars"))
         if k == "widths":
             return True
         if k == "ate":
@@ -683,7 +699,7 @@ class C11(core.Check):
         if k == "text":
             inc("queries", len(res["r"]))
             inc("enc:" + case.get("enc", "str"))
-            inc("len:%d" % min(len(case.get("s", case.get("b", []))), 9))
+            inc("len:%d" % min(len(case.get("s", case.get("b", case.get("chars", [])))), 9))
             inc("query_errors", sum(1 for r in res["r"] if r[0]))
             if case["mode"] != "str" and self.char_widths(case) is None:
                 inc("text_cases_outside_oracle_domain")
@@ -698,7 +714,7 @@ class C11(core.Check):
             inc("code_points", len(res["w"]))
 
     def shrink_candidates(self, case):
-        for key in ("s", "b"):
+        for key in ("s", "b", "chars"):
             if key in case and case["k"] in ("text", "ate", "trimattr", "enc8"):
                 l = case[key]
                 for i in range(len(l)):
@@ -852,6 +868,11 @@ class C11(core.Check):
         step = 8192
         for lo in range(0, 0x110000, step):
             yield {"k": "widths", "lo": lo, "hi": lo + step}
+        # well-formed double-byte texts given byte by byte: every boundary of the lead / trail ranges
+        DB = [[0x41], [0x40], [0x7E], [0x81, 0x40], [0x81, 0x7E], [0x81, 0x80], [0xFE, 0xFE], [0xA4, 0xA2], [0xFE, 0x40], [0xFE, 0x7E]]
+        for n in range(1, 3 if quick else 4):
+            for tup in itertools.product(DB, repeat=n):
+                yield {"k": "text", "mode": "db", "enc": "gbk", "chars": [list(c) for c in tup], "cols": 5}
         yield from self.raw_cases(rng, 400 if quick else 4000)
         yield from self.ate_cases(rng, tier)
         yield from self.rle_cases(rng, 1500 if quick else 15000)
